@@ -81,9 +81,12 @@ def main(argv=None):
         jobs = prop.jobs(ctx, tier)
         if a.only: jobs = [j for j in jobs if a.only in j.name]
         results = H.run_jobs(ctx.mirs, jobs, tier, seed, a.jobs)
+        post = prop.post_check(ctx, results) if hasattr(prop, 'post_check') else None
         # ---- triage
         known = load_known()
         inconclusive = [r for r in results if r['status'] != 'ok']
+        if post and post.get('functions_not_executed') and not a.only:
+            inconclusive.append({'job': 'inventory', 'status': 'inconclusive', 'error': f'crash-site functions never executed by any harness path: {post["functions_not_executed"][:12]}'})
         violations, known_hits = [], []
         replayed = 0
         for r in results:
@@ -116,7 +119,7 @@ def main(argv=None):
             print(f'INCONCLUSIVE property={pid} job={r["job"]}: {r["error"]}')
         status = 'violations' if violations else ('inconclusive' if inconclusive else 'held')
         write_evidence(ev_path, pid, tier, seed, prop, results, val_ok, val_bad, violations, known_hits, time.time() - t0, status, ctx,
-                       timing={'setup_s': round(t_setup, 1), 'validate_s': round(t_val, 1)}, replayed=replayed)
+                       timing={'setup_s': round(t_setup, 1), 'validate_s': round(t_val, 1)}, replayed=replayed, post=post)
         tot = lambda k: sum(r['stats'].get(k, 0) for r in results)
         print(f'{pid} {tier}: {status}; jobs={len(results)} paths={tot("paths")} queries={tot("queries")} (sat {tot("sat")}, unsat {tot("unsat")}, unknown {tot("unknown")}) '
               f'solver_s={tot("solver_s"):.1f} validated_vectors={val_ok} wall={time.time() - t0:.0f}s')
@@ -132,7 +135,7 @@ def main(argv=None):
     return rc
 
 
-def write_evidence(path, pid, tier, seed, prop, results, val_ok, val_bad, violations, known_hits, wall, status, ctx, timing=None, replayed=0):
+def write_evidence(path, pid, tier, seed, prop, results, val_ok, val_bad, violations, known_hits, wall, status, ctx, timing=None, replayed=0, post=None):
     tot = lambda k: sum(r['stats'].get(k, 0) for r in results)
     fns = {}
     for r in results:
@@ -174,6 +177,7 @@ def write_evidence(path, pid, tier, seed, prop, results, val_ok, val_bad, violat
             'counterexamples': [{'job': r['job'], 'role': f['role'], 'detail': f['detail'][:300], 'cex': f.get('cex'), 'replay': f.get('replay'), 'known': bool(k)}
                                 for (r, f, k) in list(violations) + list(known_hits)][:20],
             'timing': timing or {},
+            'inventory': post or {},
             'tree_hash': ctx.ws.hash,
         },
         'assumptions': list(getattr(prop, 'ASSUMPTIONS', [])),
